@@ -37,6 +37,7 @@ type rec struct {
 	Len      int         `json:"len"`
 	Off      int         `json:"off"`
 	Take     int         `json:"take"`
+	Held     string      `json:"held"`
 	With     string      `json:"with"`
 	Nil      bool        `json:"nil"`
 	Stream   []struct {
@@ -119,6 +120,18 @@ type holder struct{ a module.Address }
 
 func (h holder) Address() module.Address { return h.a }
 
+// the object a setter / decoder is applied to: fresh, or already holding an account / a contract address
+func preload(held string) common.Address {
+	var a common.Address
+	switch held {
+	case "acct":
+		a.SetTypeAndID(false, bytes.Repeat([]byte{0xee}, 20))
+	case "ctr":
+		a.SetTypeAndID(true, bytes.Repeat([]byte{0xee}, 20))
+	}
+	return a
+}
+
 type fail struct {
 	violation bool
 	key, what string
@@ -148,8 +161,11 @@ func runBehaviour(steps []rec, variant int, rnd *rand.Rand) (string, *fail) {
 	for i, r := range steps {
 		switch r.Op {
 		case "strict":
-			var a common.Address
+			a := preload(r.Held)
 			err := a.SetStringStrict(s)
+			if err != nil && a != preload(r.Held) {
+				return input, &fail{true, "strict:clobbers", fmt.Sprintf("SetStringStrict(%q) failed but changed the %s object to %s", s, r.Held, a.String())}
+			}
 			if (err == nil) != r.Ok {
 				if r.Ok {
 					return input, &fail{true, "strict:rejects", fmt.Sprintf("SetStringStrict(%q) fails (%v) on a canonical string", s, err)}
@@ -170,8 +186,11 @@ func runBehaviour(steps []rec, variant int, rnd *rand.Rand) (string, *fail) {
 				cur = nil
 			}
 		case "lenient":
-			var a common.Address
+			a := preload(r.Held)
 			err := a.SetString(s)
+			if err != nil && a != preload(r.Held) {
+				return input, &fail{true, "lenient:clobbers", fmt.Sprintf("SetString(%q) failed but changed the %s object to %s", s, r.Held, a.String())}
+			}
 			crit := r.Same // a canonical string: reading it back is part of the property
 			if (err == nil) != r.Ok {
 				return input, &fail{crit, "lenient:verdict", fmt.Sprintf("SetString(%q) err=%v, spec ok=%v", s, err, r.Ok)}
@@ -190,7 +209,7 @@ func runBehaviour(steps []rec, variant int, rnd *rand.Rand) (string, *fail) {
 				}
 			}
 			if js, e := json.Marshal(s); e == nil && !strings.ContainsAny(s, "\n") {
-				var b common.Address
+				b := preload(r.Held)
 				e2 := json.Unmarshal(js, &b)
 				if (e2 == nil) != (err == nil) || (err == nil && b != a) {
 					return input, &fail{crit, "lenient:json", fmt.Sprintf("UnmarshalJSON(%s) = %s,%v differs from SetString = %s,%v", js, b.String(), e2, a.String(), err)}
@@ -239,8 +258,19 @@ func runBehaviour(steps []rec, variant int, rnd *rand.Rand) (string, *fail) {
 			}
 			bs = got
 		case "frombytes":
-			var a common.Address
+			a := preload(r.Held)
 			err := a.SetBytes(bs)
+			if err != nil && a != preload(r.Held) {
+				return input, &fail{true, "frombytes:clobbers", fmt.Sprintf("SetBytes(%x) failed but changed the %s object to %s", bs, r.Held, a.String())}
+			}
+			// the codec decoder (RLPDecodeSelf) applied to the same kind of object gives the same verdict and address
+			if enc, e := codec.BC.MarshalToBytes(bs); e == nil {
+				c := preload(r.Held)
+				_, e2 := codec.BC.UnmarshalFromBytes(enc, &c)
+				if (e2 == nil) != (err == nil) || (err == nil && c != a) {
+					return input, &fail{true, "frombytes:codec", fmt.Sprintf("codec decoding of the byte string %x into a %s object gives %s,%v; SetBytes gives %s,%v", bs, r.Held, c.String(), e2, a.String(), err)}
+				}
+			}
 			if (err == nil) != r.Ok {
 				if r.Ok {
 					return input, &fail{true, "frombytes:rejects", fmt.Sprintf("SetBytes(%x) fails: %v", bs, err)}
@@ -271,6 +301,11 @@ func runBehaviour(steps []rec, variant int, rnd *rand.Rand) (string, *fail) {
 			}
 			want := append(make([]byte, r.Pad), bs[:r.Take]...)
 			b := common.NewAddressWithTypeAndID(r.Contract, bs)
+			h := preload(r.Held)
+			h.SetTypeAndID(r.Contract, bs)
+			if h != *a {
+				return input, &fail{true, "new:reused", fmt.Sprintf("SetTypeAndID(%v, %x) on a %s object gives %s, on a fresh one %s", r.Contract, bs, r.Held, h.String(), a.String())}
+			}
 			if a.IsContract() != r.Contract || !bytes.Equal(a.ID(), want) || *a != *b {
 				return input, &fail{true, "new", fmt.Sprintf("New%sAddress(%x) = %s (contract=%v), spec says contract=%v id=%x", map[bool]string{true: "Contract", false: "Account"}[r.Contract], bs, a.String(), a.IsContract(), r.Contract, want)}
 			}
@@ -289,7 +324,9 @@ func runBehaviour(steps []rec, variant int, rnd *rand.Rand) (string, *fail) {
 				break
 			}
 			other := foreign{cur.IsContract(), append([]byte{}, cur.ID()...)}
+			hs := preload(r.Held)
 			cands := map[string]*common.Address{
+				"Set(reused)":          hs.Set(cur),
 				"Set":                  new(common.Address).Set(cur),
 				"Set(foreign)":         new(common.Address).Set(other),
 				"AddressToPtr":         common.AddressToPtr(cur),
@@ -403,6 +440,7 @@ func TestReplay(t *testing.T) {
 			n = len(steps[0].Text)
 			sig = "S:" + strings.Join(steps[0].Text, "")
 		}
+		sig += ":" + steps[0].Held
 		for v := 0; v < variants; v++ {
 			input, f := runBehaviour(steps, v, rnd)
 			if f == nil {
